@@ -1088,32 +1088,32 @@ def _ts_grid(c, prop, name, unit, lo, hi):
         c.rec(prop, f"{name}: errors are range errors", e == 'DateOutOfRange', f"error {e}")
 
 
-@contract(r'^<timestamp::Timestamp as Trunc>::trunc_hour$')
+@contract(r'^<(timestamp::Timestamp|oracle::Date) as Trunc>::trunc_hour$')
 def _(c):
     _ts_grid(c, 'C10', 'Timestamp::trunc_hour', H_US, 0, H_US - 1)
 
 
-@contract(r'^<timestamp::Timestamp as Trunc>::trunc_minute$')
+@contract(r'^<(timestamp::Timestamp|oracle::Date) as Trunc>::trunc_minute$')
 def _(c):
     _ts_grid(c, 'C10', 'Timestamp::trunc_minute', MI_US, 0, MI_US - 1)
 
 
-@contract(r'^<timestamp::Timestamp as Trunc>::trunc_day$')
+@contract(r'^<(timestamp::Timestamp|oracle::Date) as Trunc>::trunc_day$')
 def _(c):
     _ts_grid(c, 'C10', 'Timestamp::trunc_day', D_US, 0, D_US - 1)
 
 
-@contract(r'^<timestamp::Timestamp as Round>::round_hour$')
+@contract(r'^<(timestamp::Timestamp|oracle::Date) as Round>::round_hour$')
 def _(c):
     _ts_grid(c, 'C11', 'Timestamp::round_hour (up from minute 30)', H_US, -(H_US // 2), H_US // 2 - 1)
 
 
-@contract(r'^<timestamp::Timestamp as Round>::round_minute$')
+@contract(r'^<(timestamp::Timestamp|oracle::Date) as Round>::round_minute$')
 def _(c):
     _ts_grid(c, 'C11', 'Timestamp::round_minute (up from second 30)', MI_US, -(MI_US // 2), MI_US // 2 - 1)
 
 
-@contract(r'^<timestamp::Timestamp as Round>::round_day$')
+@contract(r'^<(timestamp::Timestamp|oracle::Date) as Round>::round_day$')
 def _(c):
     _ts_grid(c, 'C11', 'Timestamp::round_day (up from 12:00)', D_US, -(D_US // 2), D_US // 2 - 1)
 
@@ -1261,3 +1261,315 @@ def _(c):
 def _(c):
     d = c.argc(0)
     _week_like(c, 'C11', 'round_month_start_week (fifth day rounds up)', lambda st, p: _month_day1(st, p, d), -3, 3)
+
+
+# ----------------------------------------------------------------------------- C14: scaling by a float
+def _float_scale(c, name, op, tdef):
+    x = c.argc(0)
+    ity = 'i32' if tdef == 'interval::IntervalYM' else 'i64'
+    R = (op, ('i2f', x, ity), ('param', 'number'))
+    zero = ('eq', ('param', 'number'), ('const', '0.0'))
+    seen = set()
+    for (st, ret) in c.exits:
+        kind, v = c.split_result(ret)
+        fp = list(st.notes.get('fpath', ()))
+        if op == 'div':
+            if not fp or fp[0][0] != zero:
+                c.rec('C14', f"{name}: the divisor is compared with zero before the division", False, f"path tests {fp[:1]}")
+                continue
+            if fp[0][1]:
+                seen.add('DivideByZero')
+                c.rec('C14', f"{name}: zero divisor -> DivideByZero", kind == 'err' and v == 'DivideByZero' and len(fp) == 1, f"{kind} {v} after {fp}")
+                continue
+            fp = fp[1:]
+        want_inf = (('is_inf', R))
+        want_nan = (('is_nan', R))
+        if kind == 'err' and v == 'NumericOverflow':
+            seen.add(v)
+            c.rec('C14', f"{name}: infinite result -> NumericOverflow", fp == [(want_inf, True)], f"path tests {fp}")
+        elif kind == 'err' and v == 'InvalidNumber':
+            seen.add(v)
+            c.rec('C14', f"{name}: NaN result -> InvalidNumber", fp == [(want_inf, False), (want_nan, True)], f"path tests {fp}")
+        elif kind == 'err' and v == 'IntervalOutOfRange':
+            seen.add(v)
+            c.rec('C14', f"{name}: finite result outside the range -> IntervalOutOfRange", fp == [(want_inf, False), (want_nan, False)], f"path tests {fp}")
+        elif kind == 'ok':
+            seen.add('ok')
+            cnt = c.count(v)
+            good = fp == [(want_inf, False), (want_nan, False)]
+            why = f"path tests {fp}"
+            if good:
+                good = False
+                if len(cnt.terms) == 1 and cnt.c == 0 and cnt.terms[0][1] == 1:
+                    data = SYMTAB.syms[cnt.terms[0][0]].data
+                    why = f"value is {data}"
+                    good = bool(data) and data[0] == 'f2i' and data[1] == R
+            c.rec('C14', f"{name}: value = the product/quotient of the count and the number, cast without rounding", good, why)
+            a, b = st.num.rng(cnt)
+            lo, hi, _, _ = INV[tdef]
+            c.rec('C14', f"{name}: Ok value passed the type's own gate", a >= lo and b <= hi, f"[{a}, {b}]")
+        else:
+            c.rec('C14', f"{name}: unexpected outcome", False, f"{kind} {v}")
+    need = {'NumericOverflow', 'InvalidNumber', 'IntervalOutOfRange', 'ok'} | ({'DivideByZero'} if op == 'div' else set())
+    c.rec('C14', f"{name}: all documented outcomes are reachable", need <= seen, f"missing {sorted(need - seen)}")
+
+
+@contract(r'^interval::IntervalYM::mul_f64$')
+def _(c):
+    _float_scale(c, 'IntervalYM::mul_f64', 'mul', 'interval::IntervalYM')
+
+
+@contract(r'^interval::IntervalYM::div_f64$')
+def _(c):
+    _float_scale(c, 'IntervalYM::div_f64', 'div', 'interval::IntervalYM')
+
+
+@contract(r'^interval::IntervalDT::mul_f64$')
+def _(c):
+    _float_scale(c, 'IntervalDT::mul_f64', 'mul', 'interval::IntervalDT')
+
+
+@contract(r'^interval::IntervalDT::div_f64$')
+def _(c):
+    _float_scale(c, 'IntervalDT::div_f64', 'div', 'interval::IntervalDT')
+
+
+@contract(r'^time::Time::mul_f64$')
+def _(c):
+    _float_scale(c, 'Time::mul_f64', 'mul', 'interval::IntervalDT')
+
+
+@contract(r'^time::Time::div_f64$')
+def _(c):
+    _float_scale(c, 'Time::div_f64', 'div', 'interval::IntervalDT')
+
+
+# ----------------------------------------------------------------------------- C15: serde
+def _serde_type(key):
+    m = re.search(r'for ([\w:]+)>::(?:serialize|deserialize)', key)
+    return m.group(1) if m else None
+
+
+INT_CHANNEL = {'date::Date': 'i32', 'interval::IntervalYM': 'i32', 'time::Time': 'i64', 'timestamp::Timestamp': 'i64',
+               'interval::IntervalDT': 'i64', 'oracle::Date': 'i64'}
+
+
+@contract(r'Visitor<\'_>>::visit_i(32|64)::<E>$')
+def _(c):
+    t = _serde_type(c.key)
+    want = INT_CHANNEL.get(t)
+    c.rec('C15', 'binary decoding uses the documented integer width', want is not None and c.key.endswith(f"visit_{want}::<E>"), f"{c.key} for {t}")
+    if t not in INV:
+        return
+    lo, hi, mod, rem = INV[t]
+    v = c.args[1].form
+    n_ok = 0
+    for (st, ret) in c.exits:
+        if not (isinstance(ret, VAdt) and ret.single() is not None):
+            c.rec('C15', 'visit_iN: result shape', False, f"{ret!r}")
+            continue
+        if ret.single() == OK:
+            n_ok += 1
+            cnt = c.count(ret.variants[OK][0])
+            c.rec('C15', 'visit_iN: decoded value is the payload', cnt is not None and st.num.eq0(cnt.sub(v)), f"{cnt!r} vs {v!r}")
+            a, b = st.num.rng2(cnt)
+            good = a >= lo and b <= hi and (mod == 1 or st.num.residue(cnt, mod) == rem)
+            c.rec('C15', 'visit_iN: decoded value is inside the documented range', good, f"[{a}, {b}]")
+        else:
+            a, b = st.num.rng2(v)
+            out = b < lo or a > hi
+            if not out and mod > 1:
+                r = st.num.residue(v, mod)
+                out = (r is not None and r != rem) or st.num.known_nonzero(_rem_form(st, v, mod))
+            c.rec('C15', 'visit_iN: an error only for a payload outside the range', out, f"error for payload in [{a}, {b}]")
+    c.rec('C15', 'visit_iN: in-range payloads decode', n_ok > 0)
+
+
+@contract(r'^serialize::<impl serde::Serialize for [\w:]+>::serialize::<S>$')
+def _(c):
+    t = _serde_type(c.key)
+    want = INT_CHANNEL.get(t)
+    evs = [e for e in c.I.events if e[0] == 'serde']
+    decls = [e[1].split('::')[-1] for e in evs]
+    c.rec('C15', 'Serialize: consults is_human_readable', 'is_human_readable' in decls, f"{decls}")
+    c.rec('C15', 'Serialize: human readable form is a string', 'serialize_str' in decls, f"{decls}")
+    ints = [e for e in evs if e[1].split('::')[-1].startswith('serialize_i')]
+    ok = len(ints) >= 1 and all(e[1].endswith(f"serialize_{want}") for e in ints)
+    c.rec('C15', f"Serialize: compact form is {want}", ok, f"{[e[1] for e in ints]}")
+    me = c.argc(0)
+    for e in ints:
+        a = e[2][1] if len(e[2]) > 1 else None
+        good = isinstance(a, VInt) and me is not None and a.form == me
+        c.rec('C15', 'Serialize: the integer written is the count of the value', good, f"{a!r} vs {me!r}")
+    lz = sorted({e[1] for e in c.I.events if e[0] == 'lazy'})
+    c.rec('C15', 'Serialize: exactly one static formatter is used', len(lz) == 1, f"{lz}")
+    c.out.append({'prop': 'C15', 'root': c.key, 'clause': 'info', 'ok': True, 'detail': '', 'info': {'type': t, 'static': lz, 'channel': want}})
+
+
+@contract(r'^serialize::<impl serde::Deserialize<\'_> for [\w:]+>::deserialize::<D>$')
+def _(c):
+    t = _serde_type(c.key)
+    want = INT_CHANNEL.get(t)
+    evs = [e for e in c.I.events if e[0] == 'serde']
+    decls = [e[1].split('::')[-1] for e in evs]
+    c.rec('C15', 'Deserialize: consults is_human_readable', 'is_human_readable' in decls, f"{decls}")
+    c.rec('C15', 'Deserialize: human readable form is a string', 'deserialize_str' in decls, f"{decls}")
+    ints = [d for d in decls if d.startswith('deserialize_i')]
+    c.rec('C15', f"Deserialize: compact form is {want} (same width as Serialize)", ints == [f"deserialize_{want}"], f"{ints}")
+
+
+@contract(r'Visitor<\'_>>::visit_str::<E>$')
+def _(c):
+    lz = sorted({e[1] for e in c.I.events if e[0] == 'lazy'})
+    t = _serde_type(c.key)
+    c.rec('C15', 'visit_str: exactly one static formatter is used', len(lz) == 1, f"{lz}")
+    c.out.append({'prop': 'C15', 'root': c.key, 'clause': 'info', 'ok': True, 'detail': '', 'info': {'type': t, 'static': lz}})
+
+
+# ----------------------------------------------------------------------------- C18: the clock
+def _chrono_sym(f: Form, name):
+    if len(f.terms) == 1 and f.c == 0 and f.terms[0][1] == 1:
+        d = SYMTAB.syms[f.terms[0][0]].data
+        return bool(d) and d[0] == 'chrono' and d[1] == name
+    return False
+
+
+def _now_date_part(c, st, dcount, scale):
+    """dcount (day count form, possibly scaled) is date2julian(now.year, now.month, now.day) - epoch"""
+    hit = _find_sym(dcount, 'jd')
+    day = None
+    for s, k in dcount.terms:
+        d = SYMTAB.syms[s].data
+        if d and d[0] == 'chrono' and d[1] == 'day':
+            day = (s, k)
+    if hit is None or day is None or hit[1] != scale or day[1] != scale:
+        return False, f"{dcount!r}"
+    ykey, mkey = hit[2].data[1]
+    ok = _chrono_sym(Form(ykey[0], ykey[1]), 'year') and _chrono_sym(Form(mkey[0], mkey[1]), 'month')
+    return ok, f"jd({Form(ykey[0], ykey[1])!r}, {Form(mkey[0], mkey[1])!r}) + day"
+
+
+@contract(r'^(date::Date|timestamp::Timestamp|oracle::Date)::now$')
+def _(c):
+    n = 0
+    for (st, ret) in c.exits:
+        kind, v = c.split_result(ret)
+        if kind != 'ok':
+            continue
+        n += 1
+        cnt = c.count(v)
+        reads = st.notes.get('clock_reads', 0)
+        c.rec('C18', 'now(): exactly one clock reading', reads == 1, f"{reads} readings")
+        if c.key.startswith('date::Date'):
+            ok, why = _now_date_part(c, st, cnt, 1)
+            c.rec('C18', 'Date::now: the current local (year, month, day)', ok, why)
+        else:
+            ok, why = _now_date_part(c, st, cnt, D_US)
+            c.rec('C18', 'now(): date part is the current local (year, month, day)', ok, why)
+            names = {}
+            for s, k in cnt.terms:
+                d = SYMTAB.syms[s].data
+                if d and d[0] == 'chrono':
+                    names[d[1]] = k
+            want = {'day': D_US, 'hour': H_US, 'minute': MI_US, 'second': S_US}
+            if c.key.startswith('timestamp'):
+                want['micros'] = 1
+            c.rec('C18', 'now(): hour/minute/second (and microseconds) flow to their own units', all(names.get(a) == b for a, b in want.items())
+                  and ('micros' in names) == ('micros' in want), f"{names}")
+    c.rec('C18', 'now(): some path returns Ok', n > 0)
+
+
+@contract(r'^<(timestamp::Timestamp|oracle::Date) as std::convert::TryFrom<time::Time>>::try_from$')
+def _(c):
+    n = 0
+    t = c.argc(0)
+    for (st, ret) in c.exits:
+        kind, v = c.split_result(ret)
+        if kind != 'ok':
+            continue
+        n += 1
+        cnt = c.count(v)
+        reads = st.notes.get('clock_reads', 0)
+        c.rec('C18', 'TryFrom<Time>: exactly one clock reading', reads == 1, f"{reads} readings")
+        rest = cnt
+        hit = _find_sym(cnt, 'jd')
+        day = None
+        for s, k in cnt.terms:
+            d = SYMTAB.syms[s].data
+            if d and d[0] == 'chrono' and d[1] == 'day':
+                day = (s, k)
+        ok = hit is not None and day is not None and hit[1] == D_US and day[1] == D_US
+        why = f"{cnt!r}"
+        if ok:
+            ykey, mkey = hit[2].data[1]
+            ok = _chrono_sym(Form(ykey[0], ykey[1]), 'year') and _chrono_sym(Form(mkey[0], mkey[1]), 'month')
+            rest = cnt.sub(Form.sym(hit[0], D_US)).sub(Form.sym(day[0], D_US)).addc(E_J * D_US)
+        c.rec('C18', 'TryFrom<Time>: date part is the current local date', ok, why)
+        if c.key.startswith('<timestamp'):
+            c.rec('C18', 'TryFrom<Time>: time of day is the argument', rest == t, f"{rest!r} vs {t!r}")
+        else:
+            a, b = st.num.rng2(t.sub(rest))
+            c.rec('C18', 'TryFrom<Time> for OracleDate: time of day is the argument floored to the second',
+                  a >= 0 and b < S_US and st.num.residue(rest, S_US) == 0, f"t - part in [{a}, {b}]")
+    c.rec('C18', 'TryFrom<Time>: some path returns Ok', n > 0)
+
+
+# ----------------------------------------------------------------------------- C05: the assembly step T::try_from(NaiveDateTime)
+def _dt_fields(c):
+    v = c.args[0]
+    idx = c.I.spec.ndt_fields(v)
+    fs = v.variants[0]
+    return {k: fs[i] for k, i in idx.items()}
+
+
+@contract(r' as std::convert::TryFrom<format::NaiveDateTime>>::try_from$')
+def _(c):
+    f = _dt_fields(c)
+    y, mo, d, h, mi, s, us = [f[k].form for k in ('year', 'month', 'day', 'hour', 'minute', 'sec', 'usec')]
+    tname = c.key[1:].split(' as ')[0]
+    n_ok = 0
+    for (st, ret) in c.exits:
+        kind, v = c.split_result(ret)
+        if kind == 'err':
+            c.rec('C05', f"assembly of {tname}: fractional seconds never make the parse fail (a rounded-up fraction carries)",
+                  v != 'InvalidFraction', f"returns {v}")
+            continue
+        if kind != 'ok':
+            c.rec('C05', f"assembly of {tname}: result shape", False, f"{ret!r}")
+            continue
+        n_ok += 1
+        cnt = c.count(v)
+        tod = h.scale(H_US).add(mi.scale(MI_US)).add(s.scale(S_US)).add(us)
+        if tname == 'date::Date':
+            hit = _ymd_of_result(cnt)
+            ok = hit is not None and hit[0] == y and hit[1] == mo and Form.const(hit[2]) == d if hit and not d.terms else False
+            if hit is None:
+                jd = _find_sym(cnt, 'jd')
+                ok = jd is not None and jd[2].data[1] == (y.key(), mo.key()) and cnt.sub(Form.sym(jd[0])).addc(E_J) == d
+            c.rec('C05', 'assembly of Date: value is the checked (year, month, day)', ok, f"{cnt!r}")
+        elif tname == 'time::Time':
+            c.rec('C05', 'assembly of Time: H*h + Mi*m + S*s + usec (a fraction of 1000000 carries)', st.num.eq0(cnt.sub(tod)), f"{cnt!r} vs {tod!r}")
+        elif tname in ('timestamp::Timestamp', 'oracle::Date'):
+            jds = SYMTAB.cons.get(('op', 'jd', (y.key(), mo.key())))
+            ok = jds is not None
+            why = f"{cnt!r}"
+            if ok:
+                exact = Form.sym(jds, D_US).add(d.scale(D_US)).addc(-E_J * D_US).add(tod)
+                if tname == 'timestamp::Timestamp':
+                    ok = st.num.eq0(cnt.sub(exact))
+                else:
+                    a, b = st.num.rng2(exact.sub(cnt))
+                    ok = a >= 0 and b < S_US and st.num.residue(cnt, S_US) == 0
+                why = f"{cnt!r} vs {exact!r}"
+            c.rec('C05', f"assembly of {tname}: D*days(y,m,d) + time of day", ok, why)
+        elif tname == 'interval::IntervalYM':
+            neg = f['negative']
+            mag = y.scale(12).add(mo)
+            # negative intervals: the parsed year is negative, the month is added to its magnitude
+            okp = st.num.eq0(cnt.sub(mag))
+            okn = st.num.eq0(cnt.add(y.neg().scale(12).add(mo)))
+            c.rec('C05', 'assembly of IntervalYM: +/-(12*|year| + month)', okp or okn, f"{cnt!r}")
+        elif tname == 'interval::IntervalDT':
+            mag = d.scale(D_US).add(tod)
+            c.rec('C05', 'assembly of IntervalDT: +/-(D*day + time of day, fraction carried)', st.num.eq0(cnt.sub(mag)) or st.num.eq0(cnt.add(mag)), f"{cnt!r}")
+    c.rec('C05', f"assembly of {tname}: some path returns Ok", n_ok > 0)
